@@ -1290,8 +1290,9 @@ Definition slash_tail (a : N) (v : validator) (after : N) (newcs : list N) (s : 
   s1 <- sub_total amount s ;;
   if after =? 0 then delete_validator a v s1 else
   s2 <- sub_staked amount s1 ;;
-  s3 <- delete_committees (v_stake v) (v_committees v) s2 ;;
-  s4 <- set_committees after newcs s3 ;;
+  s4 <- (if v_delegate v
+         then (d1 <- sub_delegated amount s2 ;; d2 <- delete_delegations (v_stake v) (v_committees v) d1 ;; set_delegations after newcs d2)
+         else (s3 <- delete_committees (v_stake v) (v_committees v) s2 ;; set_committees after newcs s3)) ;;
   let v' := mkVal after (v_output v) newcs (v_paused v) (v_unstaking v) (v_delegate v) (v_compound v) in
   let below := if v_delegate v' then after <? p_min_stake_delegates (l_params s) else after <? p_min_stake_validators (l_params s) in
   if (v_unstaking v' =? 0) && below
@@ -1314,31 +1315,55 @@ Lemma slash_validator_eq a chain percent already s : slash_validator a chain per
 Proof. reflexivity. Qed.
 
 Lemma slash_tail_consistent a v after newcs s s' : wf s -> Consistent s -> heights_ok s ->
-  aget a (l_vals s) = Some v -> v_delegate v = false -> after <= v_stake v -> NoDup newcs ->
+  aget a (l_vals s) = Some v -> after <= v_stake v -> NoDup newcs ->
   slash_tail a v after newcs s = LOk s' -> wf s' /\ Consistent s' /\ (exclusive s -> exclusive s').
 Proof.
-  intros W HC (Hh0 & Hh1 & Hh2 & Hh3) Hg Hd Hle Hncs H. unfold slash_tail in H. cbv zeta in H. bind_inv H.
+  intros W HC (Hh0 & Hh1 & Hh2 & Hh3) Hg Hle Hncs H. unfold slash_tail in H. cbv zeta in H. bind_inv H.
   apply sub_total_inv in Hb. destruct Hb as [t ->].
   destruct (nst_done _ _ (nst_with_total t s) W HC) as [W' HC'].
   destruct (N.eqb_spec after 0) as [Ha0|Ha0].
   { destruct (delete_validator_spec a v (with_total t s) W' HC' Hg) as (s'' & E & W'' & C'' & _ & EV & _).
     rewrite E in H. inversion H; subst s''. splits; auto. apply (exclusive_del s s' a); auto. apply W. }
-  psimpl. rewrite Hd in H.
+  psimpl.
   set (s1 := with_total t s) in *.
   change (l_vals s) with (l_vals s1) in Hg.
   destruct W' as (W1 & W2 & W3 & W4 & W5 & W6 & W7 & W8).
   apply Consistent_iff in HC'. destruct HC' as (T & M1 & M2). pose proof T as [T1 T2 T3 T4 T5].
   pose proof (Forall_aget _ _ _ _ W7 Hg) as Hnd. cbn [snd] in Hnd.
   bind_inv H. rewrite sub_staked_iff in Hb. destruct (N.ltb_spec (s_staked (l_supply s1)) (v_stake v - after)) as [|Hge]; [discriminate|].
-  inversion Hb; subst st; clear Hb. bind_inv H. bind_inv H.
+  inversion Hb; subst st; clear Hb. bind_inv H. rename st into s4.
   set (s2 := with_staked _ s1) in *.
-  destruct (each_spec _ _ _ _ _ (step_sub_cstaked (v_stake v)) (v_committees v) s2 st Hnd W5 W6 Hb) as (n1 & n2 & -> & S1 & S2 & G3 & G4).
-  destruct (each_spec _ _ _ _ _ (step_add_cstaked after) newcs (with_c n1 n2 s2) st0 Hncs S1 S2 Hb0) as (m1 & m2 & -> & S3 & S4 & F3 & F4).
-  set (vn := mkVal after (v_output v) newcs (v_paused v) (v_unstaking v) false (v_compound v)) in *.
-  set (s4 := with_c m1 m2 _) in *.
-  assert (Es4 : s4 = set_supply (mkSupply (s_total (l_supply s1)) (s_staked (l_supply s1) - (v_stake v - after))
-                                   (s_delegated (l_supply s1)) m1 m2) s1) by reflexivity.
-  clearbody s4.
+  set (vn := mkVal after (v_output v) newcs (v_paused v) (v_unstaking v) (v_delegate v) (v_compound v)) in *.
+  assert (Hmid : exists dl m1 m2,
+     s4 = set_supply (mkSupply (s_total (l_supply s1)) (s_staked (l_supply s1) - (v_stake v - after)) dl m1 m2) s1 /\
+     keys_sorted m1 /\ keys_sorted m2 /\
+     dl + wv v_delegate v = s_delegated (l_supply s1) + wv v_delegate vn /\
+     (forall c, nget c m1 + wv (Pc c) v = nget c (s_cstaked (l_supply s1)) + wv (Pc c) vn) /\
+     (forall c, nget c m2 + wv (Pd c) v = nget c (s_cdelegated (l_supply s1)) + wv (Pd c) vn)).
+  { destruct (v_delegate v) eqn:Ed.
+    - bind_inv Hb. rewrite sub_delegated_iff in Hb0.
+      destruct (N.ltb_spec (s_delegated (l_supply s2)) (v_stake v - after)) as [|Hge2]; [discriminate|].
+      inversion Hb0; subst st; clear Hb0. bind_inv Hb.
+      change (s_delegated (l_supply s2)) with (s_delegated (l_supply s1)) in *.
+      set (s3 := with_delegated _ s2) in *.
+      destruct (each_spec _ _ _ _ _ (step_sub_deleg (v_stake v)) (v_committees v) s3 st Hnd W5 W6 Hb0) as (n1 & n2 & -> & S1 & S2 & G3 & G4).
+      destruct (each_spec _ _ _ _ _ (step_add_deleg after) newcs (with_c n1 n2 s3) s4 Hncs S1 S2 Hb) as (m1 & m2 & -> & S3 & S4 & F3 & F4).
+      exists (s_delegated (l_supply s1) - (v_stake v - after)), m1, m2. split; [reflexivity|]. splits; auto.
+      + unfold wv, vn. psimpl. rewrite Ed. lia.
+      + intros c. specialize (G3 c). specialize (F3 c). change (cst (with_c n1 n2 s3)) with n1 in F3. change (cst s3) with (s_cstaked (l_supply s1)) in G3.
+        unfold wv, Pc, vn. psimpl. destruct (existsb (N.eqb c) newcs), (existsb (N.eqb c) (v_committees v)); cbn [ind] in *; lia.
+      + intros c. specialize (G4 c). specialize (F4 c). change (cdl (with_c n1 n2 s3)) with n2 in F4. change (cdl s3) with (s_cdelegated (l_supply s1)) in G4.
+        unfold wv, Pd, vn. psimpl. rewrite Ed. cbn [andb]. destruct (existsb (N.eqb c) newcs), (existsb (N.eqb c) (v_committees v)); cbn [ind] in *; lia.
+    - bind_inv Hb.
+      destruct (each_spec _ _ _ _ _ (step_sub_cstaked (v_stake v)) (v_committees v) s2 st Hnd W5 W6 Hb0) as (n1 & n2 & -> & S1 & S2 & G3 & G4).
+      destruct (each_spec _ _ _ _ _ (step_add_cstaked after) newcs (with_c n1 n2 s2) s4 Hncs S1 S2 Hb) as (m1 & m2 & -> & S3 & S4 & F3 & F4).
+      exists (s_delegated (l_supply s1)), m1, m2. split; [reflexivity|]. splits; auto.
+      + unfold wv, vn. psimpl. rewrite Ed. lia.
+      + intros c. specialize (G3 c). specialize (F3 c). change (cst (with_c n1 n2 s2)) with n1 in F3. change (cst s2) with (s_cstaked (l_supply s1)) in G3.
+        unfold wv, Pc, vn. psimpl. destruct (existsb (N.eqb c) newcs), (existsb (N.eqb c) (v_committees v)); cbn [ind] in *; lia.
+      + intros c. specialize (G4 c). specialize (F4 c). change (cdl (with_c n1 n2 s2)) with n2 in F4. change (cdl s2) with (s_cdelegated (l_supply s1)) in G4.
+        unfold wv, Pd, vn. psimpl. rewrite Ed. cbn [andb]. rewrite !ind_0 in *. lia. }
+  destruct Hmid as (dl & m1 & m2 & Es4 & S1 & S2 & D & F1 & F2). clear Hb.
   assert (HP : wf (put_val a vn s4) /\ Consistent (put_val a vn s4)).
   { rewrite Es4. split.
     - unfold wf. psimpl. splits; auto. + now apply sorted_aput. + apply Forall_aput; auto.
@@ -1346,14 +1371,9 @@ Proof.
       + apply (Tallies_gen _ _ _ _ (Some v) (Some vn) T).
         * intros P. rewrite <- Hg. now apply sw_aput.
         * cbn [s_staked wo]. change (wv Pt v) with (v_stake v). change (wv Pt vn) with after. lia.
-        * cbn [s_delegated wo]. unfold wv, vn. psimpl. now rewrite Hd.
-        * intros c. cbn [s_cstaked wo]. specialize (G3 c). specialize (F3 c).
-          change (cst (with_c n1 n2 s2)) with n1 in F3. change (cst s2) with (s_cstaked (l_supply s1)) in G3.
-          unfold wv, Pc, vn. psimpl.
-          destruct (existsb (N.eqb c) newcs), (existsb (N.eqb c) (v_committees v)); cbn [ind] in *; lia.
-        * intros c. cbn [s_cdelegated wo]. specialize (G4 c). specialize (F4 c).
-          change (cdl (with_c n1 n2 s2)) with n2 in F4. change (cdl s2) with (s_cdelegated (l_supply s1)) in G4.
-          unfold wv, Pd, vn. psimpl. rewrite Hd. cbn [andb]. rewrite !ind_0 in *. lia.
+        * cbn [s_delegated wo]. exact D.
+        * intros c. cbn [s_cstaked wo]. apply F1.
+        * intros c. cbn [s_cdelegated wo]. apply F2.
         * cbn [s_staked]. lia.
       + eapply marks_same; eauto.
       + eapply marks_same; eauto. }
@@ -1362,17 +1382,16 @@ Proof.
   destruct ((v_unstaking v =? 0) && _) eqn:Ec; inversion H; subst s'; [|tauto].
   apply andb_true_iff in Ec. destruct Ec as [Ec _]. apply N.eqb_eq in Ec.
   rewrite <- suv_put. destruct HP as [WP CP].
-  destruct (set_unstaking_val_ok a vn (add64 (l_height s) (p_unstaking_blocks (l_params s))) (put_val a vn s4)) as [A B]; auto.
+  destruct (set_unstaking_val_ok a vn (add64 (l_height s) (if v_delegate v then p_delegate_unstaking_blocks (l_params s) else p_unstaking_blocks (l_params s))) (put_val a vn s4)) as [A B]; auto.
   - rewrite Es4. unfold put_val. psimpl. now rewrite aget_aput, N.eqb_refl.
-  - now apply add64_height.
+  - destruct (v_delegate v); now apply add64_height.
   - splits; auto. intros Hx. apply suv_exclusive. auto.
 Qed.
 
 Lemma slash_all a chain percent already s s' : wf s -> Consistent s -> heights_ok s ->
-  (forall v, aget a (l_vals s) = Some v -> v_delegate v = false) ->
   slash_validator a chain percent already s = LOk s' -> wf s' /\ Consistent s' /\ (exclusive s -> exclusive s').
 Proof.
-  intros W HC Hh Hnd H. rewrite slash_validator_eq in H.
+  intros W HC Hh H. rewrite slash_validator_eq in H.
   destruct (aget a (l_vals s)) as [v|] eqn:Hg; [|inversion H; subst; auto].
   destruct (negb _); [inversion H; subst; auto|]. cbv zeta in H.
   destruct (_ <=? already); [inversion H; subst; auto|].
@@ -1382,19 +1401,13 @@ Proof.
     destruct (p_max_slash_per_committee (l_params s) <=? already + percent); auto. now apply NoDup_rm_chain.
 Qed.
 (* slashing, including the slash to zero of an unstaking or paused validator and the forced unstake below the minimum *)
-(* STATEMENT CHANGED: added the hypothesis that the slashed validator is not a delegate.  slash_validator adjusts only s_staked and
-   s_cstaked (sub_staked / delete_committees / set_committees), so for a delegate s_delegated and s_cdelegated keep the old
-   stake: delegate with stake 100 on committee 1, slash 10% -> s_staked 90, s_cstaked [(1,90)] but s_delegated 100 and
-   s_cdelegated [(1,100)], k_delegated / k_cdelegated fail (staking_ok = false).  Double-sign and non-sign slashes only name
-   committee members, which are not delegates. *)
+(* the statement covers delegates as well as validators since the repair of fsm/byzantine.go SlashValidator (see old_slash_delegate_breaks) *)
 Theorem slash_consistent a chain percent already s s' : wf s -> Consistent s -> heights_ok s ->
-  (forall v, aget a (l_vals s) = Some v -> v_delegate v = false) ->
   slash_validator a chain percent already s = LOk s' -> wf s' /\ Consistent s'.
-Proof. intros W HC Hh Hnd H. destruct (slash_all _ _ _ _ _ _ W HC Hh Hnd H) as (A & B & _). auto. Qed.
+Proof. intros W HC Hh H. destruct (slash_all _ _ _ _ _ _ W HC Hh H) as (A & B & _). auto. Qed.
 Theorem slash_exclusive a chain percent already s s' : wf s -> Consistent s -> heights_ok s ->
-  (forall v, aget a (l_vals s) = Some v -> v_delegate v = false) -> exclusive s ->
-  slash_validator a chain percent already s = LOk s' -> exclusive s'.
-Proof. intros W HC Hh Hnd Hx H. destruct (slash_all _ _ _ _ _ _ W HC Hh Hnd H) as (_ & _ & C). auto. Qed.
+  exclusive s -> slash_validator a chain percent already s = LOk s' -> exclusive s'.
+Proof. intros W HC Hh Hx H. destruct (slash_all _ _ _ _ _ _ W HC Hh H) as (_ & _ & C). auto. Qed.
 (* the defect repaired by this task's fix: commit, as a theorem about the OLD delete_validator: if the markers are not removed
    with the validator, a consistent state is reachable from which finish-unstaking fails *)
 Definition delete_validator_old (a : N) (v : validator) (s : lstate) : res lstate :=
@@ -1429,7 +1442,7 @@ Proof.
   - vm_compute. reflexivity.
   - vm_compute. reflexivity.
 Qed.
-(* ---- machine-checked counterexamples for the three STATEMENT CHANGED notes and the strengthened wf *)
+(* ---- machine-checked counterexamples for the STATEMENT CHANGED notes and the strengthened wf, and the old slash of a delegate *)
 Definition wf_orig (s : lstate) : Prop :=      (* wf as originally stated *)
   keys_nodup (l_accounts s) /\ keys_nodup (l_pools s) /\ keys_nodup (l_vals s) /\ keys_nodup (l_orders s) /\
   keys_nodup (s_cstaked (l_supply s)) /\ keys_nodup (s_cdelegated (l_supply s)) /\
@@ -1484,14 +1497,43 @@ Proof.
   - intros HC. pose proof (proj2 (k_paused_marker _ HC 5 1)) as H. cbn in H. apply H. exists v. splits; auto. discriminate.
 Qed.
 
-(* (4) slash_consistent for a delegate: the delegated tallies are not adjusted *)
-Lemma cex_slash_delegate : exists s s', wf s /\ Consistent s /\ heights_ok s /\
-  slash_validator 1 1 10 0 s = LOk s' /\ ~ Consistent s'.
+(* (4) the defect repaired in fsm/byzantine.go SlashValidator, as a theorem about the OLD slash_validator: a partial slash of a
+   delegate adjusted only s_staked / s_cstaked (sub_staked, delete_committees, set_committees), so the delegated tallies
+   kept the old stake and the bookkeeping became inconsistent *)
+Definition slash_validator_old (a : N) (chain percent already : N) (s : lstate) : res lstate :=
+  match aget a (l_vals s) with
+  | None => LOk s
+  | Some v =>
+    if negb (existsb (N.eqb chain) (v_committees v)) then LOk s else
+    let cap := p_max_slash_per_committee (l_params s) in
+    if cap <=? already then LOk s else
+    let hit := cap <=? already + percent in
+    let percent := if hit then cap - already else percent in
+    let new_committees := if hit then (fix rm (l : list N) := match l with [] => [] | c :: r => if c =? chain then r else c :: rm r end) (v_committees v)
+                          else v_committees v in
+    let after := if (100 <=? percent) || (v_stake v =? 0) then 0 else if percent =? 0 then v_stake v
+                 else SafeMulDiv (v_stake v) (100 - percent) 100 in
+    let amount := v_stake v - after in
+    s1 <- sub_total amount s ;;
+    if after =? 0 then delete_validator a v s1 else
+    s2 <- sub_staked amount s1 ;;
+    s3 <- delete_committees (v_stake v) (v_committees v) s2 ;;
+    s4 <- set_committees after new_committees s3 ;;
+    let v' := mkVal after (v_output v) new_committees (v_paused v) (v_unstaking v) (v_delegate v) (v_compound v) in
+    let below := if v_delegate v' then after <? p_min_stake_delegates (l_params s) else after <? p_min_stake_validators (l_params s) in
+    if (v_unstaking v' =? 0) && below
+    then LOk (set_unstaking_val a v' (add64 (l_height s) (if v_delegate v' then p_delegate_unstaking_blocks (l_params s) else p_unstaking_blocks (l_params s))) s4)
+    else LOk (put_val a v' s4)
+  end.
+Definition cex_delegate_state : lstate :=
+  mkL [] [] [(1, mkVal 100 9 [1] 0 0 true false)] (mkSupply 100 100 100 [(1, 100)] [(1, 100)]) [] [] [] cex_params 5 1.
+Theorem old_slash_delegate_breaks : exists s s', wf s /\ Consistent s /\ heights_ok s /\
+  slash_validator_old 1 1 10 0 s = LOk s' /\ ~ Consistent s'.
 Proof.
   pose (v := mkVal 100 9 [1] 0 0 true false).
-  exists (mkL [] [] [(1, v)] (mkSupply 100 100 100 [(1, 100)] [(1, 100)]) [] [] [] cex_params 5 1),
+  exists cex_delegate_state,
          (mkL [] [] [(1, mkVal 90 9 [1] 0 0 true false)] (mkSupply 90 90 100 [(1, 90)] [(1, 100)]) [] [] [] cex_params 5 1).
-  splits.
+  unfold cex_delegate_state. splits.
   - unfold wf. cbn. splits; auto; try (intros k []); repeat constructor; auto; cbn; tauto.
   - constructor; try reflexivity.
     + intros c. unfold stake_where, nget. cbn. destruct (c =? 1); reflexivity.
@@ -1502,9 +1544,14 @@ Proof.
   - vm_compute. reflexivity.
   - intros HC. pose proof (k_delegated _ HC) as H. vm_compute in H. discriminate.
 Qed.
+(* the repaired slash_validator on the same state: the delegated tallies follow the stake *)
+Example slash_delegate_now_consistent : exists s', slash_validator 1 1 10 0 cex_delegate_state = LOk s' /\
+  s_delegated (l_supply s') = 90 /\ nget 1 (s_cdelegated (l_supply s')) = 90.
+Proof. eexists. split; [vm_compute; reflexivity|]. split; vm_compute; reflexivity. Qed.
 
 Print Assumptions handle_consistent.
 Print Assumptions finish_unstaking_never_fails.
 Print Assumptions slash_consistent.
 Print Assumptions force_unstake_consistent.
 Print Assumptions old_delete_wedges.
+Print Assumptions old_slash_delegate_breaks.
